@@ -254,7 +254,7 @@ def main() -> int:
     # one reference used three times at generic / numeric / boolean / string positions, every order
     init_parsers()
     nre = 0
-    for spec, clash in families.reuse_family():
+    for spec, clash in families.reuse_family() + families.reuse_family_quantified():
         nre += 1
         for r in attempt(spec, True):
             if clash and r != 'TypeError':
